@@ -84,10 +84,14 @@ func (p *Path) findToken(ts []*Term) *encTokenRec {
 	return nil
 }
 
-var namePool = []string{"", "n0", "n1", "n2"}
-
-// arbitrary returns an unconstrained value of type t (bounded shapes for strings/slices).
+// arbitrary returns an unconstrained value of type t. Integers and booleans are free symbolic
+// values; strings and byte strings follow one of three shapes chosen once per decoded value:
+//   shape 0: "" / nil      shape 1: the local node's name "n0" / 4 free bytes      shape 2: "n1" / 6 free bytes
 func (p *Path) arbitrary(t types.Type, depth int) Value {
+	return p.arbShape(t, p.choose(3))
+}
+
+func (p *Path) arbShape(t types.Type, shape int) Value {
 	switch u := t.Underlying().(type) {
 	case *types.Basic:
 		if w, _, ok := intInfo(t); ok {
@@ -97,7 +101,7 @@ func (p *Path) arbitrary(t types.Type, depth int) Value {
 			return p.havoc("decode-arbitrary", w)
 		}
 		if u.Info()&types.IsString != 0 {
-			return mkStr(namePool[p.choose(len(namePool))])
+			return mkStr([]string{"", "n0", "n1"}[shape])
 		}
 		if u.Info()&types.IsFloat != 0 {
 			return FloatVal{Sym: true}
@@ -105,14 +109,12 @@ func (p *Path) arbitrary(t types.Type, depth int) Value {
 	case *types.Struct:
 		s := make(StructVal, u.NumFields())
 		for i := range s {
-			s[i] = p.arbitrary(u.Field(i).Type(), depth+1)
+			s[i] = p.arbShape(u.Field(i).Type(), shape)
 		}
 		return s
 	case *types.Slice:
 		if b, ok := u.Elem().Underlying().(*types.Basic); ok && b.Kind() == types.Uint8 {
-			// byte strings: nil, 4 or 6 arbitrary bytes (covers addresses and version vectors)
-			lens := []int{0, 4, 6}
-			n := lens[p.choose(len(lens))]
+			n := []int{0, 4, 6}[shape]
 			if n == 0 {
 				return SliceVal{Nil: true}
 			}
@@ -143,6 +145,7 @@ func (p *Path) decodeInto(ts []*Term, out Value, fr *frame, pos token.Pos) (cons
 	}
 	// hostile / foreign bytes
 	if !p.decodeArbOff && p.choose(2) == 1 {
+		p.hostile("decode")
 		storeInto(ptr, p.arbitrary(pt.Elem(), 0))
 		p.cover("engine.decode.arbitrary")
 		// an arbitrary decode may consume any prefix; model: everything offered
